@@ -4,7 +4,7 @@ import ast
 import z3
 
 from . import loader
-from .core import (REG, RefV, Ty, VerifError, PathEnd, T_INT, T_FLOAT, T_BOOL, T_ANY, parse_type, sort_of, sort_key,
+from .core import (REG, RefV, ArrV, Ty, VerifError, PathEnd, T_INT, T_FLOAT, T_BOOL, T_ANY, parse_type, sort_of, sort_key,
                    type_of_value)
 from .values import (FuncV, BuiltinV, ClassV, ModuleV, SuperV, LambdaV, ExcV, RangeV, EnumV, ZipV, GenV, Frame,
                      ReturnSig, RaiseSig)
@@ -204,11 +204,13 @@ class CallMixin(object):
                     if c.fresh_result:
                         ctx.assume(z3.And(result.term >= old_wm, result.term < ctx.wm_now()))
             self.old_heap_stack.append(old_heap)
+            self.fresh_base_stack.append(old_wm)
             try:
                 for e in c.ensures:
                     ctx.assume(self.eval_clause(e, {"result": result}))
             finally:
                 self.old_heap_stack.pop()
+                self.fresh_base_stack.pop()
             return result
         finally:
             self.frames.pop()
@@ -364,7 +366,8 @@ class CallMixin(object):
             c = self.as_bool_term(args[0])
             return (args[1] if c else args[2]) if isinstance(c, bool) else self.ite(c, args[1], args[2])
         if name == "fresh":
-            return args[0].term >= ctx.wm_entry
+            base = self.fresh_base_stack[-1] if self.fresh_base_stack else ctx.wm_entry
+            return args[0].term >= base
         if name == "allocated_before":
             return z3.And(args[0].term > 0, args[0].term < ctx.wm_entry)
         if name == "same":
@@ -394,7 +397,7 @@ class CallMixin(object):
             return op(z3.RTP() if name.endswith("rtp") else z3.RTN(), a, b)
         if name == "arr":
             v = args[0]
-            return ctx.list_arr(v, v.ty.base.args[0])
+            return ArrV(ctx.list_arr(v, v.ty.base.args[0]), v.ty.base.args[0])
         raise VerifError("spec function %s" % name)
 
     def call_ufunc(self, name, args):
@@ -405,7 +408,7 @@ class CallMixin(object):
             if t.startswith("arr["):
                 ety = parse_type(t[4:-1])
                 sorts.append(z3.ArraySort(z3.IntSort(), sort_of(ety, ctx.num)))
-                terms.append(ctx.list_arr(a, ety) if isinstance(a, RefV) else a)
+                terms.append(ctx.list_arr(a, ety) if isinstance(a, RefV) else (a.term if isinstance(a, ArrV) else a))
             else:
                 ty = parse_type(t)
                 sorts.append(sort_of(ty, ctx.num))
